@@ -78,7 +78,18 @@ MGENS = [
     E(mm(RY, RZ), [0, -2, 1]),
     E(sc(RZ, 2), [-1, 0, 0]),
 ]
+# mirrors (improper similarities: a left-hand and a right-hand copy of one part), small for the mass records
+MIRGENS = [
+    E([[-1, 0, 0], [0, 1, 0], [0, 0, 1]], [2, 0, 0]),
+    E([[0, 1, 0], [1, 0, 0], [0, 0, 1]], [0, 1, 0]),
+    E([[2, 0, 0], [0, 2, 0], [0, 0, -2]], [0, 0, 1]),
+    E([[0, 0, -1], [0, 1, 0], [-1, 0, 0]], [1, 0, -1]),
+]
 IDM = E(I3, [0, 0, 0])
+
+
+def is_mirror(e):
+    return float(np.linalg.det(np.array(e["l"], dtype=float))) < 0
 
 
 def to4(e, K=1.0):
@@ -107,6 +118,7 @@ def geoms_lib(tm):
     rect = np.array([[0, 0], [2, 0], [2, 4], [0, 4], [0, 0]])                 # closed 2D polyline
     pl3 = np.array([[0, 0, 0], [2, 0, 0], [2, 4, 2]])                         # open 3D polyline
     nof = np.zeros((0, 3), dtype=int)
+    vv = np.array([[0, 0, 0], [2, 2, 0], [0, 4, 2], [-2, 0, 2], [1, 1, 1]])    # a mesh with vertices but no faces
 
     def path_vertices(obj):
         v = np.round(np.array(obj.vertices)).astype(int)
@@ -116,6 +128,7 @@ def geoms_lib(tm):
         "tet": dict(make=lambda K=1.0: tm.Trimesh(tv * K, tf, process=False), v=tv, f=tf, a2=0, kind="solid"),
         "cloud": dict(make=lambda K=1.0: tm.PointCloud(cv * K), v=cv, f=nof, a2=0, kind="cloud"),
         "sheet": dict(make=lambda K=1.0: tm.Trimesh(sv * K, sf, process=False), v=sv, f=sf, a2=2 * 4, kind="sheet"),
+        "vmesh": dict(make=lambda K=1.0: tm.Trimesh(vv * K, nof.copy(), process=False), v=vv, f=nof, a2=0, kind="vmesh"),
         "rect": dict(make=lambda K=1.0: tm.load_path(rect * K), v=path_vertices(tm.load_path(rect * 1.0)), f=nof, a2=0, kind="path2"),
         "pl3": dict(make=lambda K=1.0: tm.load_path(pl3 * K), v=path_vertices(tm.load_path(pl3 * 1.0)), f=nof, a2=0, kind="path3"),
     }
@@ -143,7 +156,7 @@ NOMASS = {"has": False, "exc": "", "cm_on": True, "cm24": [0, 0, 0], "in_on": Tr
 
 
 def observe_dummy():
-    return {"empty": True, "bounds": [[0, 0, 0], [0, 0, 0]], "has_tris": False, "tris": [], "has_vol": False,
+    return {"empty": True, "bounds": [[0, 0, 0], [0, 0, 0]], "has_tris": False, "tris": [], "tris_unoriented": False, "has_vol": False,
             "vol6": 0, "vol_exc": "", "has_area": False, "area2": 0, "area_exc": "", "hull": dict(NOHULL), "mass": dict(NOMASS)}
 
 
@@ -151,7 +164,7 @@ HULL_EXTENT = 500     # |cross| * |p - a| must stay below 2^31 in TLC
 MASS_COORD = 12
 
 
-def observe(scene, u, closed_only=True, area_ok=True, want_hull=False, want_mass=False, light=False):
+def observe(scene, u, closed_only=True, area_ok=True, want_hull=False, want_mass=False, light=False, unoriented=False):
     """What the scene reports, snapped to integers.  u: units dict(F, K, FV, FA): coordinates are multiplied
     by F / K, 6 * volume by FV / K^3, 2 * area by FA / K^2."""
     obs = observe_dummy()
@@ -159,6 +172,7 @@ def observe(scene, u, closed_only=True, area_ok=True, want_hull=False, want_mass
         return obs
     cf = u["F"] / u["K"]
     obs["empty"] = False
+    obs["tris_unoriented"] = bool(unoriented)
     obs["bounds"] = snap(np.array(scene.bounds) * cf, "bounds")
     # extents and centroid are functions of bounds by definition: checked here as integers against bounds
     ext = snap(np.array(scene.extents) * cf, "extents")
@@ -270,7 +284,7 @@ def flags(cfg, lib):
     used = [lib[cfg["gnames"][g - 1]]["kind"] for g in cfg["geom"] if g]
     closed = all(u != "sheet" for u in used)       # open sheets have no meaningful volume
     # area: only for meshes whose faces stay axis aligned or clouds; a path's `area` is the area it encloses
-    area_ok = all((u == "solid" and lib[n]["a2"] > 0) or u in ("cloud", "sheet") for u, n in
+    area_ok = all((u == "solid" and lib[n]["a2"] > 0) or u in ("cloud", "sheet", "vmesh") for u, n in
                   zip(used, [cfg["gnames"][g - 1] for g in cfg["geom"] if g]))
     solid = any(u == "solid" for u in used)
     return closed, area_ok, solid
@@ -343,7 +357,7 @@ def scale_map(k):
 
 
 UNITS = {("cm", "mm"): E(sc(I3, 10), [0, 0, 0]), ("mm", "cm"): E(I3, [0, 0, 0], 10), ("m", "cm"): E(sc(I3, 100), [0, 0, 0])}
-MESH_KINDS = ("solid", "sheet")
+MESH_KINDS = ("solid", "sheet", "vmesh")
 
 
 def run_config(tm, lib, cfg, ops, out):
@@ -368,10 +382,13 @@ def run_config(tm, lib, cfg, ops, out):
             # as built the subscene leaves out the geometry of its own root (attributed in the spec by comparing
             # with the strict descendants): keep that comparison to bounds / triangles / volume / area
             want_hull = want_mass = False
+        # a mirror among the maps: Scene.triangles is not re-wound, the baked copies are (see ScenePlace.tla)
+        mirrored = any(is_mirror(e) for e in c["edge"]) or any(st["k"] == "m" and is_mirror(st) for st in steps)
+        unoriented = mirrored and op not in ("to_mesh", "dump", "to_geometry", "dump_concatenate")
         try:
             sc_ = scene_fn()
             r["obs"] = observe(sc_, u, closed_only=cl and not novol, area_ok=ar and area and similar and not edits,
-                               want_hull=want_hull, want_mass=want_mass)
+                               want_hull=want_hull, want_mass=want_mass, unoriented=unoriented)
         except OffLattice as e:
             r["exc"] = "offlattice:" + str(e)
             r["obs"] = observe_dummy()
@@ -909,8 +926,8 @@ def plan(tier, rs):
     quick = tier == "quick"
     work = []
     # ---- base family: integer maps, all single operations, sequences, orphans, hull on a third
-    base_g = [["box"], ["tet"], ["box", "tet"], ["box", "cloud"], ["sheet", "box"], ["cloud"]]
-    cfgs = configs(rs, 10 if quick else 40, base_g, GENS, "base")
+    base_g = [["box"], ["tet"], ["box", "tet"], ["box", "cloud"], ["sheet", "box"], ["cloud"], ["vmesh", "box"]]
+    cfgs = configs(rs, 8 if quick else 32, base_g, GENS, "base")
     for ci, cfg in enumerate(cfgs):
         n = len(cfg["parent"])
         other, third = cfgs[(ci * 7 + 3) % len(cfgs)], cfgs[(ci * 11 + 5) % len(cfgs)]
@@ -958,8 +975,8 @@ def plan(tier, rs):
         cfg["hull"] = True
         work.append((cfg, [("read",)]))
     # ---- kinds family: 2D / 3D paths next to meshes and clouds
-    kind_g = [["rect"], ["rect", "box"], ["pl3", "box"], ["rect", "pl3"], ["pl3", "cloud"], ["rect", "tet"]]
-    kcfgs = configs(rs, 3 if quick else 10, kind_g, GENS, "kinds")
+    kind_g = [["rect"], ["rect", "box"], ["pl3", "box"], ["rect", "pl3"], ["pl3", "cloud"], ["rect", "tet"], ["vmesh", "tet"], ["vmesh"]]
+    kcfgs = configs(rs, 2 if quick else 8, kind_g, GENS, "kinds")
     for ci, cfg in enumerate(kcfgs):
         n = len(cfg["parent"])
         other = kcfgs[(ci * 7 + 3) % len(kcfgs)]
@@ -985,10 +1002,25 @@ def plan(tier, rs):
         ops = [("read",), ("copy",), ("apply_transform", MGENS[1 + ci % 6]), ("edit_edge", 1 + ci % n, MGENS[(ci * 3) % len(MGENS)]),
                ("add", other), ("subscene", 1 + ci % n), ("dump",), ("seq", [("apply", MGENS[1 + ci % 6]), ("copy",)], True)]
         work.append((cfg, ops))
+    # ---- mirror family: instances placed through maps of negative determinant (small: mass records)
+    mir_g = [["box"], ["tet"], ["box", "tet"], ["tet", "cloud"]]
+    micfgs = configs(rs, 3 if quick else 12, mir_g, MGENS + MIRGENS + MIRGENS, "mirror", shapes=SHAPES[:6])
+    for ci, cfg in enumerate(micfgs):
+        n = len(cfg["parent"])
+        if not any(is_mirror(e) for e in cfg["edge"]):
+            cfg["edge"] = list(cfg["edge"])
+            cfg["edge"][ci % n] = MIRGENS[ci % len(MIRGENS)]
+        cfg["hull"] = ci % 2 == 0
+        other = micfgs[(ci * 7 + 3) % len(micfgs)]
+        mg = MIRGENS[(ci * 3 + 1) % len(MIRGENS)]
+        ops = [("read",), ("copy",), ("scaled", 2), ("apply_transform", mg), ("rezero",), ("to_mesh",), ("dump",), ("subscene", 1 + ci % n),
+               ("add", other), ("edit_edge", 1 + ci % n, mg), [("to_geometry",), ("dumpc",)][ci % 2],
+               ("seq", [("apply", mg), ("copy",)], True), ("seq", [("scaled", 2), ("apply", mg)], False)]
+        work.append((cfg, ops))
     return work, len(cfgs)
 
 
-GUARDS_QUICK = {"hull_observed": 2000, "mass_observed": 3000, "mass": 300, "rational": 300, "magnitude": 250, "kinds": 400, "noinstance": 40, "microhull": 6,
+GUARDS_QUICK = {"hull_observed": 2000, "mass_observed": 3000, "mass": 300, "rational": 300, "magnitude": 250, "kinds": 400, "mirror": 300, "vmesh": 400, "noinstance": 40, "microhull": 6,
                 "seq": 1500, "subscene_own": 150, "orphan": 1500, "rezero_then": 400, "units": 300}
 
 
@@ -1022,6 +1054,8 @@ def main(argv):
             keys.append("subscene_own")
         if d.get("orphan"):
             keys.append("orphan")
+        if "vmesh" in d["gnames"] and c["op"] in ("to_mesh", "to_geometry", "dump_concatenate", "dump", "add", "append3", "read"):
+            keys.append("vmesh")
         if "units" in c["op"]:
             keys.append("units")
         for k_ in keys:
@@ -1054,6 +1088,10 @@ def main(argv):
         elif clause == "raised" and not selected(c["cfg"], c["sub"]):
             # an operation on a scene without a single instance raised instead of doing nothing
             dev = "NoInstanceSceneRaises"
+        elif (c["op"] in ("to_mesh", "to_geometry", "dump_concatenate") and clause in ("volume_raised", "area_raised", "raised")
+              and not any(len(c["geoms"][g - 1]["f"]) for g in c["cfg"]["geom"] if g)):
+            # util.concatenate of meshes none of which has a face returns faces of shape (0,): its area / volume raise
+            dev = "ConcatenateFacelessMeshes"
         elif fams[cid] == "microhull" and clause in ("hull", "hull_raised"):
             dev = "HullOfMicroscopicScene"
         V.violation(f"{c['op'].split(':')[0] if c['op'].startswith('source_after_seq') else c['op']}:{clause}", detail, dev)
@@ -1070,9 +1108,10 @@ def main(argv):
         "edge transforms: cube rotations, 3-4-5 and 1-2-2 rational rotations x uniform scale 2 or 1/2 x integer translations "
         "(exact in TLC; rational entries are rounded doubles in the real scene, observations are snapped with a residual test)",
         "forests of at most 3 frames below the base (11 for subscene / copy / to_mesh); geometries: closed box, closed tetrahedron, "
-        "open sheet, point cloud, closed 2D polyline, open 3D polyline; whole scenes at magnitudes 2^-20 .. 2^20 (2^30 thorough)",
+        "open sheet, point cloud, closed 2D polyline, open 3D polyline, mesh with vertices but no faces; whole scenes at magnitudes 2^-20 .. 2^20 (2^30 thorough)",
         "triangles compared as a bag of oriented triangles up to cyclic rotation; area only for similarity maps and meshes with "
-        "axis-aligned faces; volume only without open sheets; no mirrors (det < 0) among edge transforms",
+        "axis-aligned faces; volume only without open sheets; mirrored instances (det < 0) are the re-wound copy, their "
+        "triangles are compared without orientation unless the operation baked them",
         "convex hull judged by a certificate (closed, convex, vertices among the placed points, every placed point inside), only "
         "when the placed points are not coplanar; centre of mass and inertia (unit density, about the base frame) only for "
         "coordinates up to 12",
